@@ -98,29 +98,6 @@ end
 section CoderState
 variable {π ν : Type}
 
-/-- what the coder does with the per-subset containers while it walks the template -/
-inductive CAct where
-  | app (it : Item)            -- `state.decoded_descriptors.append(d)`
-  | link (k v : Nat)           -- `state.bitmap_links[k] = v`
-  | switch (i : Nat)           -- `state.switch_subset_context(i)`
-
-def cStep (x : CState × Heap π ν) : CAct → CState × Heap π ν
-  | .app it => (x.1, appendDesc x.1 it x.2)
-  | .link k v => (x.1, setLink x.1 k v x.2)
-  | .switch i => (x.1.switch i, x.2)
-
-def cRun (x : CState × Heap π ν) : List CAct → CState × Heap π ν
-  | [] => x
-  | a :: as => cRun (cStep x a) as
-
-theorem cRun_all (x : CState × Heap π ν) (acts : List CAct) :
-    (cRun x acts).1.descAll = x.1.descAll ∧ (cRun x acts).1.linkAll = x.1.linkAll := by
-  induction acts generalizing x with
-  | nil => exact ⟨rfl, rfl⟩
-  | cons a as ih =>
-    obtain ⟨h1, h2⟩ := ih (cStep x a)
-    cases a <;> exact ⟨h1, h2⟩
-
 /-- COMPRESSED data (`[[]] * n`, `[{}] * n`): whatever is appended or linked, through whichever alias,
     after whatever context switches — all n subsets of the finished `TemplateData` show the same
     descriptor list and the same links, namely the ONE shared list and dict. -/
@@ -139,68 +116,6 @@ theorem C13_compressed_subsets_share (n : Nat) (h : Heap π ν) (next : Ref) (ac
     rw [d1, d2]
     simp [List.getD, hk]
   exact ⟨(e i hi).trans (e j hj).symm, e i hi⟩
-
-/-- the per-subset cells are distinct cells holding lists / dicts (what `[[] for _ in range(n)]`
-    establishes and every coder action keeps) -/
-def CWf (s : CState) (h : Heap π ν) : Prop :=
-  s.descAll.Nodup ∧ s.linkAll.Nodup ∧ (∀ r ∈ s.descAll, r ∉ s.linkAll) ∧
-  (∀ r ∈ s.descAll, ∃ is, h.lookup r = some (.lst is)) ∧ (∀ r ∈ s.linkAll, ∃ l, h.lookup r = some (.links l))
-
-theorem lst_write_frame {h : Heap π ν} {x : Ref} {is0 is' : List Item} (hx : h.lookup x = some (.lst is0)) :
-    (∀ r, r ≠ x → getList ((x, HObj.lst is') :: h) r = getList h r) ∧
-    (∀ r, r ≠ x → getLinks ((x, HObj.lst is') :: h) r = getLinks h r) := by
-  have hl : ∀ y, y ≠ x → look ((x, HObj.lst is') :: h) y = look h y := fun y hy => look_of_view (view_write_ne h x y _ hy)
-  have hd : ∀ y, getDesc ((x, HObj.lst is') :: h) y = getDesc h y := by
-    intro y
-    by_cases hy : y = x
-    · subst hy
-      unfold getDesc
-      rw [look_of_lookup_lst hx, look_of_lookup_lst (by simp : ((y, HObj.lst is') :: h).lookup y = some (.lst is'))]
-    · exact getDesc_congr (hl y hy)
-  refine ⟨?_, fun r hr => getLinks_congr (hl r hr)⟩
-  intro r hr
-  unfold getList
-  rw [getItems_congr (hl r hr)]
-  apply List.map_congr_left
-  intro it _
-  cases it with
-  | own d => rfl
-  | ref y => exact hd y
-
-theorem links_write_frame {h : Heap π ν} {x : Ref} {l0 l' : List (Nat × Nat)} (hx : h.lookup x = some (.links l0)) :
-    (∀ r, r ≠ x → getList ((x, HObj.links l') :: h) r = getList h r) ∧
-    (∀ r, r ≠ x → getLinks ((x, HObj.links l') :: h) r = getLinks h r) := by
-  have hl : ∀ y, y ≠ x → look ((x, HObj.links l') :: h) y = look h y := fun y hy => look_of_view (view_write_ne h x y _ hy)
-  have hd : ∀ y, getDesc ((x, HObj.links l') :: h) y = getDesc h y := by
-    intro y
-    by_cases hy : y = x
-    · subst hy
-      unfold getDesc
-      rw [look_of_lookup_links hx, look_of_lookup_links (by simp : ((y, HObj.links l') :: h).lookup y = some (.links l'))]
-    · exact getDesc_congr (hl y hy)
-  refine ⟨?_, fun r hr => getLinks_congr (hl r hr)⟩
-  intro r hr
-  unfold getList
-  rw [getItems_congr (hl r hr)]
-  apply List.map_congr_left
-  intro it _
-  cases it with
-  | own d => rfl
-  | ref y => exact hd y
-
-theorem getD_eq {l : List Ref} {i : Nat} (hi : i < l.length) : l.getD i 0 = l[i] := by
-  simp [List.getD, hi]
-
-theorem getD_mem {l : List Ref} {i : Nat} (hi : i < l.length) : l.getD i 0 ∈ l := by
-  rw [getD_eq hi]; exact List.getElem_mem hi
-
-theorem getD_ne_of_nodup {l : List Ref} (hn : l.Nodup) {i j : Nat} (hi : i < l.length) (hj : j < l.length) (hij : i ≠ j) :
-    l.getD j 0 ≠ l.getD i 0 := by
-  rw [getD_eq hi, getD_eq hj]
-  have hp := List.pairwise_iff_getElem.1 hn
-  rcases Nat.lt_or_gt_of_ne hij with h | h
-  · exact fun e => hp i j hi hj h e.symm
-  · exact fun e => hp j i hj hi h e
 
 /-- UNCOMPRESSED data (n distinct lists and dicts): an append or a link made through the alias of
     subset i never changes what subset j shows (and the well-formedness is kept, so this holds for
@@ -289,7 +204,7 @@ def outNat : Out (MsgV Nat) Nat → Nat
 def Wfresh : Writes Nat Nat Nat Nat Nat := fun _ s => [(s.next + 1, .desc ⟨0, 99, 0, 0⟩)]
 
 /-- the hypothesis `Disciplined` is satisfiable by a `W` that does write -/
-theorem Wfresh_disciplined : Disciplined Wfresh := by
+theorem C13_heap_discipline_satisfiable : Disciplined Wfresh := by
   intro op s hs w hw hp
   simp only [Wfresh, List.mem_singleton] at hw
   subst hw
